@@ -125,6 +125,10 @@ def quantile_(array, inv_idx, *, q, axis, skipna, group_idx, dtype=None, out=Non
     result = _lerp(loval, hival, t=gamma, out=out, dtype=dtype)
     if not skipna and np.any(nanmask):
         result[..., nanmask] = np.nan
+    # groups with no valid member: the virtual index points outside the group
+    allnan = actual_sizes < 0
+    if skipna and np.any(allnan):
+        result[..., allnan] = np.nan
     return result
 
 
